@@ -29,6 +29,18 @@ pub struct Case {
     pub unknown: Vec<u16>,
     /// thorough: enumerate every crash point
     pub all_k: bool,
+    /// the collection starts WITHOUT any index (indexes may still be created by a later reopen):
+    /// recovery then has no index to reconcile, but ids, documents and counts must still recover
+    #[serde(default)]
+    pub bare: bool,
+}
+
+fn start_idx(case: &Case) -> IndexSet {
+    if case.bare {
+        IndexSet::none()
+    } else {
+        IndexSet::all()
+    }
 }
 
 pub fn case_strategy(tier: Tier) -> impl Strategy<Value = Case> {
@@ -40,8 +52,9 @@ pub fn case_strategy(tier: Tier) -> impl Strategy<Value = Case> {
         prop::collection::vec(any::<u16>(), 16..24),
         prop::collection::vec((any::<u16>(), any::<u16>()), 3..6),
         prop::collection::vec(any::<u16>(), 4..8),
+        prop::bool::weighted(0.2),
     )
-        .prop_map(move |(backend, compress, ops, ksel, nested, unknown)| Case { backend, compress, ops, ksel, nested, unknown, all_k })
+        .prop_map(move |(backend, compress, ops, ksel, nested, unknown, bare)| Case { backend, compress, ops, ksel, nested, unknown, all_k, bare })
 }
 
 #[derive(Clone)]
@@ -74,7 +87,7 @@ async fn backend_from(kind: BackendKind, snap: &BTreeMap<String, Vec<u8>>) -> Ba
 
 async fn clean_run(case: &Case, ctx: &mut CaseCtx) -> Result<CleanInfo, String> {
     install_clocks(1_700_000_000_000);
-    let idx = IndexSet::all();
+    let idx = start_idx(case);
     let mut sys = Sys::create(case.backend, case.compress, &idx).await.map_err(|e| format!("clean run: create failed: {e}"))?;
     let after_create = sys.be.ctl.mutation_count();
     let mut tr = Track::default();
@@ -103,7 +116,7 @@ async fn faulty_run(case: &Case, arm: impl Fn(&Backend)) -> Result<Option<(Backe
         be.ctl.set_logging(true);
     }
     arm(&be);
-    let idx = IndexSet::all();
+    let idx = start_idx(case);
     let db = match connect(be.store(), case.compress).await {
         Ok(db) => db,
         Err(e) => {
